@@ -304,6 +304,19 @@ class Exec:
             self.trivial += 1
             return
         k = sum(1 for o in self.obls if o.line == line and o.kind == kind and o.name.endswith(".0"))
+        # a quantified postcondition that is (up to bound-variable names) one of the most recent facts -- typically the
+        # conclusion of a lemma just applied -- is kept whole and proved from those few facts: splitting it would bury
+        # the match among a hundred hypotheses
+        gz = to_z3(goal)
+        if kind.startswith("ensures") and z3.is_quantifier(gz) and len(st.pc) > 12:
+            recent = list(st.pc[-12:])
+            chk = z3.Solver()
+            chk.set("timeout", 400)
+            chk.add(*recent)
+            chk.add(z3.Not(gz))
+            if chk.check() == z3.unsat:
+                self.obls.append(Obl("%s:L%d:%s#%d.0" % (self.fnname, line, kind, k), recent, gz, kind, line, self.fnname, note))
+                return
         # goal splitting; a conjunction A and B is proved as A, then B under A (sound; later conjuncts lean on earlier ones)
         for j, (hs, leaf) in enumerate(intro(to_z3(goal))):
             name = "%s:L%d:%s#%d.%d" % (self.fnname, line, kind, k, j)
